@@ -61,22 +61,27 @@ theorem writeAt_eq (ops : CacheOps κ) (g : Graph) (n : NodeId) (r : Reg) (a : I
     (buf : Bytes) (s : St κ) :
     writeAt ops g n r a buf s =
       if g[r.port]? = some .port then
-        if s.dev.writeOk a buf.length = true then
-          (.ok (), ⟨if r.mode = .writeThrough then
-                      ops.cache (ops.invalidateBy (ops.invalidateBy s.cache n) r.port) n a r.len buf
-                    else ops.invalidateOf (ops.invalidateBy (ops.invalidateBy s.cache n) r.port) n,
-                    (s.dev.write a buf).2⟩)
-        else (.err .device, ⟨ops.invalidateBy (ops.invalidateBy s.cache n) r.port, (s.dev.write a buf).2⟩)
+        ((s.dev.write a buf).1,
+          ⟨if s.dev.writeOk a buf.length = true ∧ r.mode = .writeThrough then
+             ops.cache (ops.invalidateBy (ops.invalidateBy s.cache n) r.port) n a r.len buf
+           else ops.invalidateOf (ops.invalidateBy (ops.invalidateBy s.cache n) r.port) n,
+           (s.dev.write a buf).2⟩)
       else (.err .invalidNode, ⟨ops.invalidateBy s.cache n, s.dev⟩) := by
   by_cases h2 : g[r.port]? = some .port
-  · by_cases h3 : s.dev.writeOk a buf.length = true
-    · by_cases h4 : r.mode = .writeThrough <;>
-        simp [writeAt, h2, h3, h4, portWrite, expectPort, devWrite, write_of_ok h3, invBy, invOf,
+  · rw [if_pos h2]
+    have hfst := write_fst (d := s.dev) (a := a) (data := buf)
+    by_cases h3 : s.dev.writeOk a buf.length = true
+    · rw [if_pos h3] at hfst
+      by_cases h4 : r.mode = .writeThrough <;>
+        simp [writeAt, h2, h3, h4, expectPort, devWrite, write_of_ok h3, invBy, invOf,
           cacheData, Bind.bind, M.bind, M.pure]
-    · have h3' : s.dev.writeOk a buf.length = false := by simpa using h3
-      simp [writeAt, h2, h3', portWrite, expectPort, devWrite, write_of_not_ok h3', invBy,
-        Bind.bind, M.bind, M.pure]
-  · simp only [writeAt, portWrite, Bind.bind, M.bind, invBy]
+    · rw [if_neg h3] at hfst
+      have hpair : s.dev.write a buf = (.err .device, (s.dev.write a buf).2) := by
+        rw [← hfst]
+      simp only [writeAt, Bind.bind, M.bind, invBy, expectPort, h2, M.pure, devWrite]
+      rw [hpair]
+      simp [h3]
+  · simp only [writeAt, Bind.bind, M.bind, invBy]
     rw [expectPort_eq, if_neg h2]
     simp [h2]
 
@@ -170,7 +175,8 @@ theorem devRel_peek {dc du : Dev} (h : DevRel dc du) (a : Int) (l : Nat) :
     dc.peek a l = du.peek a l := peek_congr h.mem h.noAccess a l
 
 theorem devRel_writeOk {dc du : Dev} (h : DevRel dc du) (a : Int) (l : Nat) :
-    dc.writeOk a l = du.writeOk a l := writeOk_congr h.mem h.noAccess h.noWrite h.rejW h.wcount a l
+    dc.writeOk a l = du.writeOk a l :=
+  writeOk_congr h.mem h.noAccess h.noWrite h.rejW h.rejP h.wcount a l
 
 theorem devRel_read {dc du : Dev} (h : DevRel dc du) (a : Int) (l : Nat) :
     (dc.read a l).1 = (du.read a l).1 ∧ DevRel (dc.read a l).2 (du.read a l).2 := by
@@ -178,27 +184,25 @@ theorem devRel_read {dc du : Dev} (h : DevRel dc du) (a : Int) (l : Nat) :
   cases hc : dc.peek a l with
   | some bs =>
     rw [read_of_peek_some hc, read_of_peek_some (hp ▸ hc)]
-    exact ⟨rfl, ⟨h.mem, h.noAccess, h.noWrite, h.rejW, h.wcount, .keep _ h.log⟩⟩
+    exact ⟨rfl, ⟨h.mem, h.noAccess, h.noWrite, h.rejW, h.rejP, h.wcount, .keep _ h.log⟩⟩
   | none =>
     rw [read_of_peek_none hc, read_of_peek_none (hp ▸ hc)]
-    exact ⟨rfl, ⟨h.mem, h.noAccess, h.noWrite, h.rejW, h.wcount, .keep _ h.log⟩⟩
+    exact ⟨rfl, ⟨h.mem, h.noAccess, h.noWrite, h.rejW, h.rejP, h.wcount, .keep _ h.log⟩⟩
 
 theorem devRel_write {dc du : Dev} (h : DevRel dc du) (a : Int) (data : Bytes) :
     (dc.write a data).1 = (du.write a data).1 ∧ DevRel (dc.write a data).2 (du.write a data).2 := by
-  have hw := devRel_writeOk h a data.length
-  cases hc : dc.writeOk a data.length with
-  | true =>
-    rw [write_of_ok hc, write_of_ok (hw ▸ hc)]
-    refine ⟨rfl, ⟨?_, h.noAccess, h.noWrite, h.rejW, ?_, .keep _ h.log⟩⟩
-    · show patch dc.mem _ _ = patch du.mem _ _
-      rw [h.mem]
-    · show dc.wcount + 1 = du.wcount + 1
-      rw [h.wcount]
+  have ha := allowed_congr h.mem h.noAccess h.noWrite h.rejW h.wcount a data.length
+  unfold Dev.write
+  rw [ha, h.wcount, h.rejP, h.mem]
+  cases du.allowed a data.length with
   | false =>
-    rw [write_of_not_ok hc, write_of_not_ok (hw ▸ hc)]
-    refine ⟨rfl, ⟨h.mem, h.noAccess, h.noWrite, h.rejW, ?_, .keep _ h.log⟩⟩
-    show dc.wcount + 1 = du.wcount + 1
-    rw [h.wcount]
+    rw [if_neg (by simp), if_neg (by simp)]
+    exact ⟨rfl, ⟨rfl, h.noAccess, h.noWrite, h.rejW, rfl, rfl, .keep _ h.log⟩⟩
+  | true =>
+    rw [if_pos rfl, if_pos rfl]
+    cases alGet du.wcount du.rejP with
+    | none => exact ⟨rfl, ⟨rfl, h.noAccess, h.noWrite, h.rejW, rfl, rfl, .keep _ h.log⟩⟩
+    | some mj => exact ⟨rfl, ⟨rfl, h.noAccess, h.noWrite, h.rejW, rfl, rfl, .keep _ h.log⟩⟩
 
 theorem peek_read (d : Dev) (a : Int) (l : Nat) (a' : Int) (l' : Nat) :
     (d.read a l).2.peek a' l' = d.peek a' l' := by
@@ -207,11 +211,11 @@ theorem peek_read (d : Dev) (a : Int) (l : Nat) (a' : Int) (l' : Nat) :
 
 theorem devRel_log_keep {dc du : Dev} (h : DevRel dc du) (e : Access) :
     DevRel { dc with log := e :: dc.log } { du with log := e :: du.log } :=
-  ⟨h.mem, h.noAccess, h.noWrite, h.rejW, h.wcount, .keep e h.log⟩
+  ⟨h.mem, h.noAccess, h.noWrite, h.rejW, h.rejP, h.wcount, .keep e h.log⟩
 
 theorem devRel_log_drop {dc du : Dev} (h : DevRel dc du) (e : Access) (h1 : e.write = false)
     (h2 : e.ok = true) : DevRel dc { du with log := e :: du.log } :=
-  ⟨h.mem, h.noAccess, h.noWrite, h.rejW, h.wcount, .dropR e h1 h2 h.log⟩
+  ⟨h.mem, h.noAccess, h.noWrite, h.rejW, h.rejP, h.wcount, .dropR e h1 h2 h.log⟩
 
 /-! ### simulation of the primitives -/
 
@@ -307,15 +311,8 @@ theorem sim_writeAt (hD : Declared p g) {n : NodeId} {r : Reg} {a : Int} {buf : 
   · have hw := devRel_writeOk hdev a buf.length
     have hdw := devRel_write hdev a buf
     rw [if_pos h2, if_pos h2]
-    cases hok : sC.dev.writeOk a buf.length with
-    | true =>
-      rw [← hw, hok, if_pos rfl, if_pos rfl]
-      exact ⟨rfl, ⟨hdw.2, inv_write hD hinv hn h2 hk hlen hok⟩, fun _ _ => trivial⟩
-    | false =>
-      rw [← hw, hok, if_neg (by simp), if_neg (by simp)]
-      refine ⟨rfl, ⟨hdw.2, ?_⟩, fun _ _ => trivial⟩
-      exact inv_dev_congr (inv_invalidateBy (inv_invalidateBy hinv n) r.port)
-        (peek_write_rejected hok)
+    refine ⟨hdw.1, ⟨hdw.2, ?_⟩, fun _ _ => trivial⟩
+    exact inv_write hD hinv hn h2 hk hlen
   · rw [if_neg h2, if_neg h2]
     exact ⟨rfl, ⟨hdev, inv_invalidateBy hinv n⟩, fun _ _ => trivial⟩
 
@@ -710,7 +707,7 @@ theorem sim_runHist (hD : Declared p g) (h : List Op) (hH : HistOk g h) :
 
 /-- the initial states of the two builds are related -/
 theorem rel_init (p : Profile) (g : Graph) (d : Dev) : Rel p g (initDefault g d) (initSink d) := by
-  refine ⟨⟨rfl, rfl, rfl, rfl, rfl, logSub_refl _⟩, ?_, ?_, buildStore_table g⟩
+  refine ⟨⟨rfl, rfl, rfl, rfl, rfl, rfl, logSub_refl _⟩, ?_, ?_, buildStore_table g⟩
   · intro n a l bs h
     rw [initDefault, buildStore_get] at h
     cases h
